@@ -858,6 +858,16 @@ def conc_elem(name, a):
     return None
 
 
+
+def _astype(obj, dt, copy, kw):
+    """astype(dtype, copy=False) returns the SAME array when the dtype already matches: an alias, which the functional array model
+    cannot express (a later in-place write would reach the caller's data) -- unsupported, decided by the native oracle if at all"""
+    if kw:
+        raise Unsupported("astype keyword %s" % sorted(kw))
+    if copy is not True and getattr(obj, "dtype", None) == dt:
+        raise Unsupported("astype(copy=False) with matching dtype returns an alias of its input (aliasing guard)")
+    return obj.astype(dt)
+
 def value_attr(T, interp, obj, name):
     I = interp
     if isinstance(obj, Arr):
@@ -881,7 +891,7 @@ def value_attr(T, interp, obj, name):
                 obj.resize(I.as_index(n))
             return resize
         if name == "astype":
-            return lambda dt: obj.astype(dtype_name_pub(dt))
+            return lambda dt, copy=True, **kw: _astype(obj, dtype_name_pub(dt), copy, kw)
         if name == "reshape":
             def reshape(*shape):
                 if len(shape) == 1 and isinstance(shape[0], tuple):
@@ -945,7 +955,7 @@ def value_attr(T, interp, obj, name):
                 return obj.reshape(r, c)
             return reshape2
         if name == "astype":
-            return lambda dt: obj.astype(dtype_name_pub(dt))
+            return lambda dt, copy=True, **kw: _astype(obj, dtype_name_pub(dt), copy, kw)
         if name == "sum":
             return lambda axis=None: T.get("numpy.sum")(I, obj, axis=axis)
     if isinstance(obj, Cx) or V.is_num(obj):
